@@ -11,6 +11,9 @@ HARNESSES = [
     H("c19_dump::g_dump_fresh", desc="capture window: every stream that reads target memory is produced while the target is stopped; only the soft-error stream follows the resume", loops={"MINIDUMP_EXCEPTION": 20, "alloc_from_array": 8}, timeout=2400, est_gb=8, mem_gb=24),
     H("c04_registers::c04_ptrace_regs_to_context", desc="ptrace register files -> CONTEXT_AMD64, all values symbolic", loops={"XMM_SAVE_AREA32": 100}),
     H("c06_stacks::c04_tl_1thread_requested", desc="thread list, 1 thread: its record carries its id, its registers, its stack", timeout=2400, loops=TL, est_gb=14, mem_gb=30, expect_unsat_covers=("window clipped at the mapping start", "window clipped at the mapping end", "ip outside every mapping")),
+    H("c03_suspend::c03_attach_fails", desc="a thread that exited before the attach (ESRCH) is omitted from the list AND reported as a soft error", timeout=1800, est_gb=11, mem_gb=24),
+    H("c03_suspend::c03_dies_while_attaching", desc="a thread that exits during the wait is omitted and reported", timeout=1800, est_gb=11, mem_gb=24),
+    H("c03_suspend::c03_two_threads_attach_fails_first", desc="the threads after a vanished one are still suspended and listed, in order", timeout=1800, est_gb=11, mem_gb=24),
     H("c06_stacks::c04_tl_2threads_requested_absent", desc="2 threads, no crash context, blamed thread not listed", timeout=3400, loops=TL, tier="thorough", mem_gb=30, expect_unsat_covers=("window clipped at the mapping start", "window clipped at the mapping end", "ip outside every mapping")),
     H("c06_stacks::c04_tl_2threads_requested_first", desc="2 threads, blamed = first", timeout=3400, loops=TL, tier="thorough", mem_gb=30, expect_unsat_covers=("window clipped at the mapping start", "window clipped at the mapping end", "ip outside every mapping")),
     H("c06_stacks::c04_tl_3threads_requested_mid", desc="3 threads", timeout=3400, loops=TL, tier="thorough", mem_gb=30, expect_unsat_covers=("window clipped at the mapping start", "window clipped at the mapping end", "ip outside every mapping")),
